@@ -237,6 +237,87 @@ fn layer1(ctx: &WorkerCtx, rep: &mut WorkerReport, base: u64, max_states: usize)
     }
 }
 
+/// Layer 1b: long random walks on the same structure. The breadth-first search stays shallow (a
+/// few thousand states per depth); a history only fills its window after ten or more writes in
+/// consecutive blocks, so walks biased towards "write, next block" reach full windows, and what a
+/// deletion, a rollback or an idle stretch does to a full window.
+fn layer1_walks(ctx: &WorkerCtx, rep: &mut WorkerReport, base: u64, walks: u64) {
+    let mut rng = crate::rng::Rng::new(ctx.seed ^ base.wrapping_mul(0x9e37_79b9) ^ 0x1b);
+    let mut full_then_unset = 0u64;
+    for _ in 0..walks {
+        let init = if rng.chance(1, 2) { Some(1u64) } else { None };
+        let mut s = S1 { imp: BlockHistoryCacheData::<V1>::new(init.map(|v| v.into())), model: vec![(0, init)], cur: base, m: base, path: vec![format!("new({:?})@{}", init, base)] };
+        let mut next_val = 2u64;
+        // half of the walks start by filling the window: a write in each of 9..12 consecutive blocks
+        let mut forced: VecDeque<u64> = VecDeque::new();
+        if rng.chance(1, 2) {
+            for _ in 0..rng.range(9, 12) {
+                forced.push_back(0);
+                forced.push_back(10);
+            }
+        }
+        for _ in 0..rng.range(30, 60) {
+            let versions_before = parse_hist(&s.imp.encode_vec()).len();
+            let pick = forced.pop_front().unwrap_or_else(|| rng.below(20));
+            match pick {
+                0..=7 => {
+                    // a value differing from the current one (an equal value need not add a version)
+                    next_val += 1;
+                    let v = next_val;
+                    let r = catch_unwind(AssertUnwindSafe(|| s.imp.set(s.cur, v.into())));
+                    if r.is_err() {
+                        violation(rep, "C13", ctx.seed, "l1-write-panics", "set at the current block panicked".into(), json!({"layer": "1b", "ops": s.path}));
+                        return;
+                    }
+                    s.model.push((s.cur, Some(v)));
+                    s.path.push(format!("set {}@{}", v, s.cur));
+                }
+                8..=9 => {
+                    let r = catch_unwind(AssertUnwindSafe(|| s.imp.unset(s.cur)));
+                    if r.is_err() {
+                        violation(rep, "C13", ctx.seed, "l1-write-panics", "unset at the current block panicked".into(), json!({"layer": "1b", "ops": s.path}));
+                        return;
+                    }
+                    s.model.push((s.cur, None));
+                    s.path.push(format!("unset@{}", s.cur));
+                    if versions_before >= 11 {
+                        full_then_unset += 1;
+                    }
+                }
+                10..=17 => {
+                    let adv = if pick != 10 && rng.chance(1, 12) { *rng.pick(&[2u64, 9, 10, 11]) } else { 1 };
+                    s.cur += adv;
+                    s.m = s.m.max(s.cur);
+                    s.path.push(format!("advance {}", adv));
+                }
+                _ => {
+                    let k = rng.range(1, 3);
+                    if k > s.cur || (s.cur - k) + 10 < s.m {
+                        continue;
+                    }
+                    let n = s.cur - k;
+                    if catch_unwind(AssertUnwindSafe(|| s.imp.reorg(n))).is_err() {
+                        continue; // reported by check1 of the previous state
+                    }
+                    s.model.retain(|(b, _)| *b <= n);
+                    s.cur = n;
+                    s.path.push(format!("rollback {}", n));
+                }
+            }
+            rep.evaluations += 1;
+            if !check1(rep, ctx.seed, &s) {
+                return;
+            }
+            let n = parse_hist(&s.imp.encode_vec()).len();
+            if n >= 10 {
+                rep.nontrivial(format!("l1b:{}:{}-versions:{}", base, n, s.path.last().map(|p| p.split(|c: char| c == ' ' || c == '@').next().unwrap_or("").to_string()).unwrap_or_default()));
+            }
+        }
+    }
+    rep.count("l1b_walks", walks);
+    rep.count("l1b_deletions_of_a_key_with_a_full_window", full_then_unset);
+}
+
 // ---------------------------------------------------------------------------------------------
 // Layer 2
 // ---------------------------------------------------------------------------------------------
@@ -758,6 +839,9 @@ pub fn worker(ctx: &WorkerCtx) -> WorkerReport {
     if (ctx.shard as usize) < bases.len() {
         let max_states = if ctx.thorough() { 400_000 } else { 25_000 };
         layer1(ctx, &mut rep, bases[ctx.shard as usize], max_states);
+        if rep.violations.is_empty() {
+            layer1_walks(ctx, &mut rep, bases[ctx.shard as usize], if ctx.thorough() { 20_000 } else { 1_500 });
+        }
         return rep;
     }
     if ctx.shard as usize == bases.len() {
